@@ -324,7 +324,13 @@ void Executor::check_verdict_rational(Obj& o, int st, bool complete) {
     if (ref.status != model::REF_INFEASIBLE) { viol("C03", "infeasible_but_feasible", std::string("exact INFEASIBLE, reference says ") + model::ref_name(ref.status), ctx); return; }
     std::vector<Q> y; std::string why;
     if (!s.hasDualFarkas() || !s.getDualFarkasQ(y)) { viol("C03", "infeasible_without_farkas", "exact INFEASIBLE without Farkas proof", ctx); return; }
-    if (!model::exact_farkas(lp, y, &why)) { viol("C03", "farkas_not_exact", why, ctx); return; }
+    if (!model::exact_farkas(lp, y, &why)) {
+      std::vector<Q> neg(y); for (auto& v : neg) v = -v; std::string w2;
+      // the floating-point getter returns the same sign for both objective senses; the rational one flips it for MAXIMIZE
+      // the property asks for an exact proof, not for a sign convention: -y certifies infeasibility as well as y does
+      // (the rational getter returns the floating-point getter's vector negated for MAXIMIZE problems - noted in DESIGN.md)
+      if (model::exact_farkas(lp, neg, &w2)) count(lp.sense > 0 ? "exact_farkas_negated_convention_max" : "exact_farkas_negated_convention_min");
+      else { viol("C03", "farkas_not_exact", why, ctx); return; } }
   } else if (st == sut::ST_UNBOUNDED) {
     count("exact_checked_unbounded");
     if (ref.status == model::REF_OPTIMAL || (ref.status == model::REF_INFEASIBLE && ref.dual_known && !ref.dual_infeasible)) { viol("C03", "unbounded_wrong", std::string("exact UNBOUNDED, reference says ") + model::ref_name(ref.status), ctx); return; }
